@@ -597,8 +597,8 @@ def cumprod(x, axis=None, out=None, out_like=None, sizing='optimal', method='raw
         x = Fxp(x)
 
     signed = x.signed
-    n_frac = x.size * x.n_frac
-    n_int = max(x.size * x.n_word - int(signed) - n_frac, x.n_int)   # first elements keep their own integer length
+    n_frac = max(x.size * x.n_frac, x.n_frac)   # the finest partial product: the last one, or the first one for a negative fraction length
+    n_int = max(x.size * (x.n_word - x.n_frac) - int(signed), x.n_int)   # first elements keep their own integer length
     n_word = int(signed) + n_int + n_frac
     optimal_size = (signed, n_word, n_int, n_frac)
 
